@@ -465,3 +465,15 @@ Definition inside_selected (b : backend) (levels : list Z) (e : entry) : bool :=
   end.
 
 Definition coord_level (c : coord) : Z := let '(_, _, l) := c in l.
+
+(* several tasks in one cleanup() call *)
+Definition check_multi (q : Z)
+           (c : backend * pyramid * list (task * bbox * list coord) * list entry * list bool) : bool :=
+  let '(b, p, ts, ents, surv) := c in
+  let after := cleanup_tasks b q (p_msize p) (map (fun x => let '(t, _, w) := x in (t, w)) ts) ents in
+  bools_eqb (map (fun e => existsb (entry_eqb e) after) ents) surv
+  && forallb (fun x => let '(t, cov, w) := x in
+                       match strategy b t with
+                       | SWalk => walk_exact_b p (t_levels t) cov w
+                       | _ => true
+                       end) ts.
